@@ -16,7 +16,7 @@ import z3
 from pyvc import alg, dsl
 from pyvc.alg import Num
 from pyvc.builtins_model import SymSeq
-from pyvc.interp import Model, Obj, PathEnd, Unsupported, VC, _Break, _Continue
+from pyvc.interp import Model, Obj, PathEnd, SBool, Unsupported, VC, _Break, _Continue
 
 MAP = "phyclone.process_trace.map"
 NEG_INF = float("-inf")
@@ -315,6 +315,7 @@ def verify_all(ctx, repo, prop):
     dsl.verify(ctx, repo, dsl.Registry(), prop, MAP + ".compute_log_S", h_log_S, expect_covers=LOGS_COVERS)
     dsl.verify(ctx, repo, dsl.Registry(), prop, MAP + ".get_map_ccfs", h_map_ccfs, expect_covers=["ccfs"])
     dsl.verify(ctx, repo, dsl.Registry(), prop, MAP + "._set_max_assignment", h_traceback, expect_covers=TRACE_COVERS)
+    dsl.verify(ctx, repo, dsl.Registry(), prop, MAP + ".get_map_clonal_prev", h_clonal_prev, expect_covers=["prev.leaf", "prev.inner"])
     ctx.trust("array abstraction (CellArray): the loop bodies touch only the cells named in the frame obligations; np.zeros / np.ones give the initial contents stated in the harness "
               "(choice 0, result -inf, log_S column 0 = log_D column 0)", "witness technique: an arbitrary fixed candidate j* stands for the universal quantifier",
               "compute_log_D (loop over children and samples calling _compute_log_D_n), compute_max_likelihood, _set_max_assignment (traceback), get_map_clonal_prev and the "
@@ -501,3 +502,90 @@ class NpStub2(Model):
 
 
 TRACE_COVERS = ["traceback.step"]
+
+
+# ----------------------------------------------------------------------------------------------------------- clonal prevalence
+
+
+def h_clonal_prev(I, fi):
+    """get_map_clonal_prev at one node with any number of children, for an arbitrary sample: result[node] = ccf[node] - sum_c ccf[c]
+    (computed on a copy: the CCF dictionary is not modified), and the recursion visits every child once with the same dictionaries."""
+    P = I.P
+    n = alg.sym("n_children", "Int")
+    P.assume(P.z(n) >= 0)
+    node = alg.sym("node", "Int")
+    log = {"copies": 0, "rec": [], "stores": [], "subs": []}
+
+    def ccf(x):
+        return alg.raw_app("ccf", I.to_num(x))
+
+    class Vec(Model):
+        """one sample's entry of a CCF vector; `-=` on the ORIGINAL (not a copy) would modify the dictionary"""
+
+        def __init__(self, val, is_copy):
+            self.val, self.is_copy = val, is_copy
+
+        def m_copy(self, I_):
+            log["copies"] += 1
+            return Vec(self.val, True)
+
+        def iop(self, I_, op, other):
+            if not isinstance(op, ast.Sub) or not isinstance(other, Vec):
+                raise Unsupported("unexpected in-place operation on a CCF vector")
+            log["subs"].append((self, other))
+            self.val = self.val - other.val
+            return self
+
+    class Ccfs(Model):
+        def getitem(self, I_, k):
+            return Vec(ccf(k), False)
+
+    class Result(Model):
+        def setitem(self, I_, k, v):
+            log["stores"].append((I_.to_num(k), v))
+
+    class T(Model):
+        def m_successors(self, I_, nd):
+            return SymSeq("children", n, lambda i: alg.raw_app("child", I_.to_num(nd), I_.to_num(i), sort="Int"))
+
+    tree, ccfs, result = T(), Ccfs(), Result()
+    I.registry.call_contracts[fi.qualname] = lambda I_, a, k, nd: log["rec"].append(a)
+
+    def loop(I_, nd_, fr):
+        seq = I_.eval(nd_.iter, fr)
+        ok = isinstance(seq, SymSeq) and not seq.tail and seq.key == "children"
+        P.check("prev.loop-over-the-children", ok, "the loop ranges over the children of the node", kind="post")
+        if not ok:
+            raise PathEnd()
+        acc = fr.vars.get("clonal_prev")
+        if not isinstance(acc, Vec):
+            raise Unsupported("clonal_prev is not a vector before the loop")
+        if not P.branch(SBool(P.z(n) > 0)):
+            dsl.cover(I_, "prev.leaf")
+            return
+        dsl.cover(I_, "prev.inner")
+        b = alg.fresh_bound()
+        start = acc.val
+        acc.val = Num.const(0)
+        I_.assign_target(nd_.target, seq.core_at(I_, b), fr)
+        I_.exec_block(nd_.body, fr)
+        okb = fr.vars.get("clonal_prev") is acc and len(log["subs"]) == 1 and log["subs"][0][0] is acc and len(log["rec"]) == 1
+        P.check("prev.body", okb, "each iteration subtracts one vector from the running copy and recurses once", kind="post")
+        if not okb:
+            raise PathEnd()
+        child = alg.raw_app("child", node, b, sort="Int")
+        P.check("prev.subtracts-the-child's-ccf", (acc.val + ccf(child)).is_zero(), "what is subtracted is the CCF of that child", kind="post")
+        a = log["rec"][0]
+        P.check("prev.recursion", a[0] is tree and (I_.to_num(a[1]) - child).is_zero() and a[2] is ccfs and a[3] is result, "the child's subtree is processed with the same tree, CCF dictionary and result dictionary", kind="post")
+        acc.val = start + alg.bigsum("", n, -ccf(alg.raw_app("child", node, b, sort="Int")), bound=b)
+
+    I.registry.loop_invariants[(fi.qualname, 0)] = loop
+    I.call_function(fi, [tree, node, ccfs, result], {}, force_inline=True)
+    b = alg.fresh_bound()
+    want = ccf(node) - alg.bigsum("", n, ccf(alg.raw_app("child", node, b, sort="Int")), bound=b)
+    ok = len(log["stores"]) == 1 and (log["stores"][0][0] - node).is_zero() and isinstance(log["stores"][0][1], Vec)
+    P.check("prev.stored-for-the-node", ok, "exactly result[node] is written", kind="post")
+    if ok:
+        v = log["stores"][0][1]
+        P.check("prev.on-a-copy", v.is_copy and log["copies"] == 1, "the subtraction runs on a copy: the CCF dictionary is not modified", kind="post")
+        P.check("prev.value", alg.is_identically_zero(v.val - want) or P.z(v.val) == P.z(want), "clonal prevalence = CCF of the clone - sum of the CCFs of its children", kind="post")
